@@ -222,6 +222,63 @@ pub fn install_abort_handler(prop: &str, verif_root: &str) {
     }
 }
 
+/// Environment probe that does not involve the library: does a datagram sent to the mDNS group
+/// from this host come back to a socket that joined the group on port 5353?
+pub fn loopback_multicast_works() -> bool {
+    unsafe {
+        let rx = libc::socket(libc::AF_INET, libc::SOCK_DGRAM, 0);
+        if rx < 0 {
+            return false;
+        }
+        let one: libc::c_int = 1;
+        let sz = std::mem::size_of::<libc::c_int>() as libc::socklen_t;
+        libc::setsockopt(rx, libc::SOL_SOCKET, libc::SO_REUSEADDR, &one as *const _ as *const libc::c_void, sz);
+        libc::setsockopt(rx, libc::SOL_SOCKET, libc::SO_REUSEPORT, &one as *const _ as *const libc::c_void, sz);
+        let mut addr: libc::sockaddr_in = std::mem::zeroed();
+        addr.sin_family = libc::AF_INET as libc::sa_family_t;
+        addr.sin_port = 5353u16.to_be();
+        addr.sin_addr = libc::in_addr { s_addr: 0 };
+        if libc::bind(rx, &addr as *const _ as *const libc::sockaddr, std::mem::size_of::<libc::sockaddr_in>() as libc::socklen_t) != 0 {
+            libc::close(rx);
+            return false;
+        }
+        let mreq = libc::ip_mreq { imr_multiaddr: libc::in_addr { s_addr: u32::from_ne_bytes([224, 0, 0, 251]) }, imr_interface: libc::in_addr { s_addr: 0 } };
+        if libc::setsockopt(rx, libc::IPPROTO_IP, libc::IP_ADD_MEMBERSHIP, &mreq as *const _ as *const libc::c_void, std::mem::size_of::<libc::ip_mreq>() as libc::socklen_t) != 0 {
+            libc::close(rx);
+            return false;
+        }
+        let tv = libc::timeval { tv_sec: 0, tv_usec: 100_000 };
+        libc::setsockopt(rx, libc::SOL_SOCKET, libc::SO_RCVTIMEO, &tv as *const _ as *const libc::c_void, std::mem::size_of::<libc::timeval>() as libc::socklen_t);
+        let tx = match std::net::UdpSocket::bind((std::net::Ipv4Addr::UNSPECIFIED, 0)) {
+            Ok(s) => s,
+            Err(_) => {
+                libc::close(rx);
+                return false;
+            }
+        };
+        let _ = tx.set_multicast_loop_v4(true);
+        // a 13-byte datagram that is not a DNS message any service would act on
+        let token = *b"verif-probe-0";
+        let mut ok = false;
+        for _ in 0..10 {
+            let _ = tx.send_to(&token, (std::net::Ipv4Addr::new(224, 0, 0, 251), 5353));
+            let mut buf = [0u8; 64];
+            for _ in 0..5 {
+                let n = libc::recv(rx, buf.as_mut_ptr() as *mut libc::c_void, buf.len(), 0);
+                if n == token.len() as isize && buf[..token.len()] == token {
+                    ok = true;
+                    break;
+                }
+            }
+            if ok {
+                break;
+            }
+        }
+        libc::close(rx);
+        ok
+    }
+}
+
 /// Run one recorded case in a child process (`mc --replay <file>`): Ok(signatures) on exit 0/1,
 /// Err(description) when the child died on a signal or failed otherwise.
 pub fn run_isolated(verif_root: &str, prop: &str, tag: &str, case: &serde_json::Value) -> Result<Vec<(String, String)>, String> {
